@@ -1153,28 +1153,20 @@ Section Handlers3.
       destruct (key_url_ok (cf_base cf) k Hb) as (u & ->); cbn [bind]; eauto.
   Qed.
 
+  (* with the dangling-link and the one-key repairs in, every rename request is answered: from
+     every note (root or sub-directory) and for every new name (RenameFacts.handle_rename_total);
+     the hypothesis `rename_target_ok key new_name` that excluded the sub-directory panic is gone *)
   Theorem rename_total key p new_name :
     IweV.Pos.v_empty_item (cf_pos cf) = true -> base_ok (cf_base cf) = true ->
-    Rename.fx_dangling (cf_fx cf) = true -> rename_target_ok key new_name = true ->
+    Rename.fx_dangling (cf_fx cf) = true -> Rename.fx_subdir (cf_fx cf) = true ->
     exists v, handle_rename cf sv key p new_name = Ok v.
   Proof.
-    intros Hv Hb Hd Ht. unfold handle_rename, Rename.handle_rename. fold s g a.
-    destruct tlib_ok as (L & ->). cbn [bind].
-    assert (Hcore : exists r, Rename.rename_core (cf_fx cf) (cf_opts cf) (Rename.index_scan a) L key
-                                (site_of (cf_pos cf) (ss_docs sv) key p) new_name = Ok r).
-    { unfold Rename.rename_core. destruct (Rename.tl_find L (key_from_file_name new_name)); [eauto|].
-      destruct (site_of_ok cf sv key p Hv) as ([url|] & ->); cbn [bind]; [|eauto].
-      destruct (Rename.tl_find L (from_rel_link_url url (key_parent key))) as [nk|]; [|rewrite Hd; eauto].
-      destruct (index_scan_ok (from_rel_link_url url (key_parent key))) as (refers & ->). cbn [bind]. cbv zeta.
-      unfold rename_target_ok in Ht. apply String.eqb_eq in Ht. rewrite Ht.
-      match goal with |- context [fold_right ?F (Ok []) ?ks] => destruct (fold_right_ok F [] ks) as (ov & ->) end.
-      { intros k r Hk. cbn [bind]. apply (proj1 (RenameFacts.sort_keys_In _ _)) in Hk. cbn [alookup].
-        destruct (String.eqb k (key_from_file_name new_name)); [cbn [bind]; eauto|].
-        match goal with |- context [alookup k (map (fun x => (Rename.tn_key x, @?f x)) ?aff)] =>
-          destruct (alookup_map_in f aff k Hk) as ([t tb] & ->) end.
-        cbn [bind]. eauto. }
-      cbn [bind alookup]. rewrite String.eqb_refl. cbn [bind]. eauto. }
-    destruct Hcore as (r & ->). cbn [bind]. destruct r as [m| |ops]; [eauto | eauto |].
+    intros Hv Hb Hd Ht. unfold handle_rename. fold s g.
+    destruct tlib_ok as (L & HL).
+    destruct (site_of_ok cf sv key p Hv) as (s0 & ->).
+    destruct (RenameFacts.handle_rename_total (cf_fx cf) (cf_opts cf) g (cf_tables cf) L key s0 new_name
+                Hd Ht HL index_scan_ok) as (r & ->).
+    cbn [bind]. destruct r as [m| |ops]; [eauto | eauto |].
     destruct (mapm_ok (op_url (cf_base cf)) ops) as (ops' & ->); [intros o _; now apply op_url_ok|].
     cbn [bind]. eauto.
   Qed.
@@ -1223,9 +1215,11 @@ Print Assumptions C12_handler_panic_domain.
 (* ---------- the readable form: requests about existing notes ------------------------------------- *)
 
 (* the tree the check runs on: library directory absolute, `line_range` of a list repaired
-   (d2c35b3), rename of a dangling link refused (fix-rename-dangling) *)
+   (d2c35b3), rename of a dangling link refused (fix-rename-dangling), the new name of a rename
+   read once from the directory of the note under the cursor (one-key repair of handle_rename) *)
 Definition config_ok (cf : config) : Prop :=
-  base_ok (cf_base cf) = true /\ IweV.Pos.v_empty_item (cf_pos cf) = true /\ Rename.fx_dangling (cf_fx cf) = true.
+  base_ok (cf_base cf) = true /\ IweV.Pos.v_empty_item (cf_pos cf) = true /\ Rename.fx_dangling (cf_fx cf) = true /\
+  Rename.fx_subdir (cf_fx cf) = true.
 
 Definition request_ok (cf : config) (sv : sstate) (r : request) : Prop :=
   let g := gs_graph (ss_gs sv) in
@@ -1238,7 +1232,6 @@ Definition request_ok (cf : config) (sv : sstate) (r : request) : Prop :=
         (forall key tree, key_of g target = Ok key -> collect_key g key = Ok tree ->
                           kg_has kg (draws_needed k' tree target) = true)
   | RPrepareRename key p => link_end_ok (cf_pos cf) (ss_docs sv) key p = true
-  | RRename key _ new_name => rename_target_ok key new_name = true
   | RCommand c => is_ok (cf_command cf (ss_gs sv) c) = true
   | RUnknown => False
   | _ => True
@@ -1246,9 +1239,9 @@ Definition request_ok (cf : config) (sv : sstate) (r : request) : Prop :=
 
 Theorem C12_total_inv cf sv r : SInv sv -> config_ok cf -> request_ok cf sv r -> exists v, handle cf sv r = Ok v.
 Proof.
-  intros HS (Hb & Hv & Hd) Hr. apply C12_panic_sound; [exact HS|].
+  intros HS (Hb & Hv & Hd & Hs) Hr. apply C12_panic_sound; [exact HS|].
   destruct r as [key| |key|key p|qe score|key| |key line er only|k data kg|key|key|key p|key p new_name|c| ];
-    cbn [may_panic request_ok] in *; try reflexivity; try (now rewrite ?Hr, ?Hb, ?Hv, ?Hd).
+    cbn [may_panic request_ok] in *; try reflexivity; try (now rewrite ?Hr, ?Hb, ?Hv, ?Hd, ?Hs).
   - destruct Hr as (k' & target & title & -> & -> & Ha & Hkg). rewrite Hb. cbn [negb orb]. rewrite orb_false_r.
     apply negb_false_iff. rewrite <- (resolve_is_domain sv HS).
     destruct (C09_offered_resolves_graph (gs_graph (ss_gs sv)) k' kg target title (H_wf sv HS) Ha)
@@ -1358,7 +1351,7 @@ Module Witness.
 
   Definition cf_at (base : string) (v : variant) (fx : Rename.fixes) : config :=
     CF (Opts "") (fun _ => []) fx v base false None (fun _ _ => Panic "no model configured").
-  Definition cf0 : config := cf_at "/lib" repaired (Rename.FX false true true).     (* /repo *)
+  Definition cf0 : config := cf_at "/lib" repaired (Rename.FX false true true true).     (* /repo *)
 
   Definition sv0 : res sstate := server_new ex_notes docs.
   Definition sv1 : res sstate := do s <- sv0; server_run s (notes_of_ops ex_ops).
@@ -1374,19 +1367,19 @@ Qed.
 
 (* a relative library directory: every handler that builds a URI panics in `expect("to work")` *)
 Theorem relative_base_panics :
-  on sv0 (cf_at "lib" IweV.Pos.repaired (Rename.FX false true true)) (RReferences "b") = Panic "key_to_url: to work" /\
-  on sv1 (cf_at "lib" IweV.Pos.repaired (Rename.FX false true true)) (RDocumentSymbol "e") = Panic "key_to_url: to work" /\
-  on sv0 (cf_at "lib" IweV.Pos.repaired (Rename.FX false true true)) (RWorkspaceSymbol true (fun _ => 0%Z))
+  on sv0 (cf_at "lib" IweV.Pos.repaired (Rename.FX false true true true)) (RReferences "b") = Panic "key_to_url: to work" /\
+  on sv1 (cf_at "lib" IweV.Pos.repaired (Rename.FX false true true true)) (RDocumentSymbol "e") = Panic "key_to_url: to work" /\
+  on sv0 (cf_at "lib" IweV.Pos.repaired (Rename.FX false true true true)) (RWorkspaceSymbol true (fun _ => 0%Z))
     = Panic "key_to_url: to work" /\
-  on sv0 (cf_at "lib" IweV.Pos.repaired (Rename.FX false true true)) (RRename "a" (1, 2) "new") = Panic "key_to_url: to work" /\
-  on sv0 (cf_at "lib" IweV.Pos.repaired (Rename.FX false true true)) (RCodeActionResolve (Some SectionToList) (Some 1) KSeq)
+  on sv0 (cf_at "lib" IweV.Pos.repaired (Rename.FX false true true true)) (RRename "a" (1, 2) "new") = Panic "key_to_url: to work" /\
+  on sv0 (cf_at "lib" IweV.Pos.repaired (Rename.FX false true true true)) (RCodeActionResolve (Some SectionToList) (Some 1) KSeq)
     = Panic "key_to_url: to work".
 Proof. repeat split; vm_compute; reflexivity. Qed.
 
 (* as found (before d2c35b3), a list whose first item is empty: definition, prepare rename and
    rename panic in DocumentBlock::line_range, whatever the position *)
 Theorem empty_first_item_panics_as_found :
-  let cf := cf_at "/lib" IweV.Pos.as_found (Rename.FX false true true) in
+  let cf := cf_at "/lib" IweV.Pos.as_found (Rename.FX false true true true) in
   on sv0 cf (RDefinition "b" (5, 0)) = Panic "line_range: unwrap on None" /\
   on sv0 cf (RPrepareRename "b" (5, 0)) = Panic "line_range: unwrap on None" /\
   on sv0 cf (RRename "b" (5, 0) "new") = Panic "line_range: unwrap on None" /\
@@ -1402,12 +1395,13 @@ Proof. split; [vm_compute; reflexivity|]. destruct witness_reached as (sv & E & 
   vm_compute in E. injection E as <-. vm_compute. reflexivity.
 Qed.
 
-(* rename issued from a note in a sub-directory: the patch is built under `new`, exported under
-   `d/new` (server.rs:465 vs 484); as found, also a link to no note *)
+(* rename issued from a note in a sub-directory: before the one-key repair the patch is built
+   under `new` and exported under `d/new` - a panic; /repo answers (and files the note as d/new) *)
 Theorem rename_subdir_panics :
-  on sv0 cf0 (RRename "d/c" (1, 2) "new") = Panic "to have key" /\ rename_target_ok "d/c" "new" = false /\
-  (exists v, on sv0 cf0 (RRename "a" (1, 2) "new") = Ok v) /\ rename_target_ok "a" "new" = true.
-Proof. repeat split; try (vm_compute; reflexivity). eexists. vm_compute. reflexivity. Qed.
+  on sv0 (cf_at "/lib" IweV.Pos.repaired (Rename.FX false true true false)) (RRename "d/c" (1, 2) "new") = Panic "to have key" /\
+  (exists v, on sv0 cf0 (RRename "d/c" (1, 2) "new") = Ok v) /\
+  (exists v, on sv0 cf0 (RRename "a" (1, 2) "new") = Ok v).
+Proof. repeat split; try (vm_compute; reflexivity); eexists; vm_compute; reflexivity. Qed.
 
 Theorem rename_dangling_panics_as_found :
   on sv0 (cf_at "/lib" IweV.Pos.repaired Rename.as_found) (RRename "d/c" (1, 12) "new") = Panic "to have key" /\
